@@ -204,6 +204,10 @@ class ModbusTransactionManager(object):
                                 "/Unable to decode response")
                             response = ModbusIOException(last_exception,
                                                          request.function_code)
+                            # whatever is still on its way belongs to this
+                            # failed transaction: start the next one on a
+                            # fresh connection instead of reading it then
+                            self.client.close()
                     if hasattr(self.client, "state"):
                         _logger.debug("Changing transaction state from "
                                       "'PROCESSING REPLY' to "
@@ -215,6 +219,7 @@ class ModbusTransactionManager(object):
                 # Handle decode errors in processIncomingPacket method
                 _logger.exception(ex)
                 self.client.state = ModbusTransactionState.TRANSACTION_COMPLETE
+                self.client.close()
                 return ex
 
     def _addReply(self, request, reply):
